@@ -15,6 +15,7 @@ from vt import findings as F
 perf = time.perf_counter
 VERIF = os.path.dirname(os.path.dirname(os.path.abspath(__file__)))
 NPROC = max(1, min(16, os.cpu_count() or 1))
+MAX_EXEC_PER_ITEM = 400
 
 
 class Scenario(object):
@@ -96,7 +97,8 @@ def _w_default(arg):
 
 
 def _w_item(item):
-    idx, prefix, expect, bound, deadline_wall, ctx, min_point = item
+    idx, prefix, expect, bound, deadline_wall, ctx, min_point = item[:7]
+    stack = item[7] if len(item) > 7 else None
     scn = _SCN[idx]
     st = X.Stats()
     try:
@@ -105,7 +107,8 @@ def _w_item(item):
             from vt.clock import _real_time
             dl = perf() + max(0.0, deadline_wall - _real_time())
         X.explore(_safe_run(scn), bound, prefix=prefix, expect=expect, stats=st, deadline=dl,
-                  scenario=scn.describe(), ctx=ctx, min_point=min_point)
+                  scenario=scn.describe(), ctx=ctx, min_point=min_point, max_exec=MAX_EXEC_PER_ITEM,
+                  initial_stack=stack)
     except X.ReplayDivergence as e:
         st.violations.append({'clause': 'HARNESS.nondeterminism', 'detail': str(e), 'where': 'harness',
                               'scenario': scn.describe(), 'choices': list(prefix), 'labels': [],
@@ -115,6 +118,12 @@ def _w_item(item):
                               'where': 'harness', 'scenario': scn.describe(), 'choices': list(prefix),
                               'labels': [], 'deviations': []})
     st.outcomes = set(list(st.outcomes)[:5000])
+    if st.leftover:
+        # split the unexplored rest in two halves and give them back
+        rest = st.leftover
+        half = max(1, len(rest) // 2)
+        st.leftover = [(idx, prefix, expect, bound, deadline_wall, ctx, min_point, part)
+                       for part in (rest[:half], rest[half:]) if part]
     return idx, st
 
 
@@ -146,6 +155,24 @@ def _items_for(idx, points, choices, first, bound, deadline_wall, ctx):
     return items
 
 
+def _drain_items(pool, items, on_result):
+    """Run work items; an item that turns out to be large hands part of its subtree back, which is queued again."""
+    import collections
+    pending = collections.deque()
+    queue = collections.deque(items)
+    inflight = 0
+    LIMIT = NPROC * 3
+    while queue or pending:
+        while queue and len(pending) < LIMIT:
+            pending.append(pool.apply_async(_w_item, (queue.popleft(),)))
+        r = pending.popleft()
+        idx, st = r.get()
+        for extra in st.leftover:
+            queue.append(extra)
+        st.leftover = []
+        on_result(idx, st)
+
+
 def run_explorer_property(mod, tier, seed, budget_s):
     """Generic driver for explorer-based properties.  Returns (stats, meta, scenarios).
 
@@ -174,8 +201,7 @@ def run_explorer_property(mod, tier, seed, budget_s):
                 k = seed % len(items)
                 items = items[k:] + items[:k]
             meta['work_items'] = len(items)
-            for idx, st in pool.imap_unordered(_w_item, items, chunksize=1):
-                total.merge(st)
+            _drain_items(pool, items, lambda idx, st: total.merge(st))
         else:
             seen = {}                      # (scenario idx, digest) -> generation discovered
             frontier = [(idx, [], None) for idx in range(len(scns))]
@@ -200,7 +226,7 @@ def run_explorer_property(mod, tier, seed, budget_s):
                     items = items[k:] + items[:k]
                 new_states = {}
                 gen_stats = X.Stats()
-                for idx, st in pool.imap_unordered(_w_item, items, chunksize=1):
+                def on_result(idx, st):
                     for dg, hist in st.finals.items():
                         key = (idx, dg)
                         if key not in seen and key not in new_states:
@@ -209,6 +235,7 @@ def run_explorer_property(mod, tier, seed, budget_s):
                             new_states[key] = hist
                     st.finals = {}
                     gen_stats.merge(st)
+                _drain_items(pool, items, on_result)
                 total.merge(gen_stats)
                 for key in new_states:
                     seen[key] = g
